@@ -350,6 +350,40 @@ def setop_obligations(pid, tier, seed):
                                            'operand_kinds': kinds, 'node_sizes': [2, 2]}}
 
 
+# ---------------------------------------------------------------------------
+# C06: state round trip
+
+def state_obligations(pid, tier, seed):
+    obs = []
+    t = 200 if tier == 'quick' else 1200
+    sh, bounds = tree_shapes(tier, seed, quick_extra=(6, 2))
+    ARGS = [('x', 'int'), ('op', 'int')]
+    PRE = ['0 <= op < 6']
+    for kind, tag, tpl, hist, L, I in sh:
+        m = shapes.n_ranks(tpl)
+        emb = shapes.embedded_nonroot(tpl)
+        base = '%s/%s/%s%s/%s' % (pid, kind, tag, '' if (L, I) == (2, 2) else '%d%d' % (L, I), sid(tpl))
+        P = dict(family='OO', kind=kind, tpl=tpl, L=L, I=I, prov='loaded', embedded_nonroot=emb)
+        obs.append(dict(id=base + '/stored', mod='h_state', fn='state_step', nk=m, args=ARGS, pre=PRE,
+                        params=dict(P, stored=True), timeout=t))
+        if tag == 'core' or tier != 'quick':
+            obs.append(dict(id=base + '/fresh', mod='h_state', fn='state_step', nk=m, args=ARGS, pre=PRE,
+                            params=dict(P, stored=False), timeout=t))
+        if tag == 'core' and hist is not None and (tier != 'quick' or m <= 5):
+            N = (max(k for _, k in hist) + 1) if hist else 0
+            obs.append(dict(id=base + '/grown', mod='h_state', fn='state_step', nk=N, args=ARGS, pre=PRE,
+                            params=dict(P, prov='grown', hist=hist, stored=not emb), timeout=t))
+        if tag == 'core' and m <= 4:
+            obs.append(dict(id=base + '/none0', mod='h_state', fn='state_step', nk=m, args=ARGS + [('none0', 'bool')], pre=PRE,
+                            params=dict(P, stored=True), timeout=t))
+    for kind in ('Bucket', 'Set'):
+        for n in ((0, 1, 3) if tier == 'quick' else (0, 1, 2, 3, 4, 5)):
+            obs.append(dict(id='%s/%s/n%d' % (pid, kind, n), mod='h_state', fn='state_step', nk=n,
+                            args=ARGS + [('none0', 'bool')], pre=PRE, params=dict(family='OO', kind=kind, n=n), timeout=t))
+    bounds.update(pickle_protocols=[0, 1, 2, 3, 4, 5], per_condition_timeout_s=t)
+    return {'obligations': obs, 'bounds': bounds}
+
+
 COMMON_ASSUME = [
     'key objects are observed by the containers only through rich comparison, identity and None-ness '
     '(true for the object-key templates; native-key families are covered by their own obligations where stated)',
@@ -443,5 +477,23 @@ PROPS = {
                    'TreeSet_isub/ior/ixor/iand', 'BTrees._base: union, intersection, difference, _set_operation, _SetIteration, '
                    '_ArithmeticMixin, _MutableSetMixin.__ior__/__iand__/__isub__/__ixor__'],
         assumptions=COMMON_ASSUME[:1],
+    ),
+    'C06': dict(
+        families=['OO'],
+        gen=lambda tier, seed: state_obligations('C06', tier, seed),
+        explanation='For every catalogue shape with symbolic keys, the container is built in both implementations; the state graph '
+                    'obtained through __getstate__ is rebuilt object by object through __setstate__ into the same and into the '
+                    'OTHER implementation (C->C, C->Py, Py->C, Py->Py; this is what unpickling does, without realising the '
+                    'symbols); each rebuilt container must have equal ordered contents, pass both checkers and the independent '
+                    'walker, find every key, have an equal state graph, and perform one further solver-chosen mutation with a '
+                    'symbolic key like the model; the C and Python state graphs must be equal; copy.copy likewise. Two storage '
+                    'situations: every node has an oid (stored tree: no inline leaf states) and none has (fresh tree: root '
+                    'embeds its single leaf). Bytes: on a solver model of every path the concrete container is pickled by both '
+                    'implementations with protocols 0..5 (byte-for-byte equal), unpickled and deep-copied, and checked again.',
+        functions=['_OOBTree.so: BTree_getstate, _BTree_setstate, bucket_getstate, _bucket_setstate, set_getstate(bucket_getstate), '
+                   '_set_setstate, BTree/Bucket __reduce__ via persistent', 'BTrees._base: _Tree.__getstate__/__setstate__, '
+                   'Bucket.__getstate__/__setstate__, Set.__getstate__/__setstate__, _Base.__reduce__/_BTree_reduce_as'],
+        assumptions=COMMON_ASSUME + ['pickle itself is outside the repository; it is exercised on one solver-chosen concrete '
+                                     'witness per explored path'],
     ),
 }
